@@ -1077,6 +1077,10 @@ def jobs(tier, seed):
                     continue
                 pres_opts = [([True, False] if k != 'm' else [True]) for k in kinds]
                 for present in itertools.product(*pres_opts):
+                    # an absent optional argument directly followed by a present one with the same delimiters cannot be written:
+                    # the brackets would be read as the first of the two
+                    if any(kinds[i] == kinds[i + 1] and kinds[i] != 'm' and not present[i] and present[i + 1] for i in range(len(kinds) - 1)):
+                        continue
                     J.append(dict(harness='h_sig', params=dict(kinds=list(kinds), types=list(types), present=list(present), ncontent=2 if (q or n == 3) else 3),
                                   label='sig %s %s %s' % (' '.join(kinds), types, present), no_twin=True))
     for typ in ('Number', 'Dimen', 'Glue', 'Tok', 'XTok', 'cs'):
